@@ -77,6 +77,15 @@ CHECKS = {
     note=('Trusted: Coq kernel, ExtrOcamlBasic, OCaml driver, Python harness (event normalisation, signature classification). Modelled, not verified: _exec_input, gen_input, parse_input; stores, arrays/records and the grammar only through the compiled-program correspondence. '
           'Specification choices: trimming = str.strip white space; plain decimal numerals only.'),
     technique='Rocq proof over hand-written Gallina model + differential correspondence against the implementation'),
+ 'C19': dict(
+    category='proof',
+    text=('21 closed Rocq theorems on the model of PrintUsingFormatter and the USING hand-over of _exec_print. Unguarded, for every field and value: rendered length >= width and = width unless the text starts with "%", "%" leads exactly when the length exceeds the width; '
+          'literal/escape copying; & and ! fields; left-to-right consumption; newline rule. Under decidable guards: equality with an independent specification (round half-even on the exact binary value, proved to be a nearest rounding; right alignment; sign position; thousands separators) and no host exception. '
+          'The unguarded statements are refuted by 6 witness theorems (D16/D24). Tied to the code by the real PrintUsingFormatter on all format strings up to a length over {#,.,comma,+,-,&,!,_,a,blank} x value lists, extreme values, the real _exec_print hand-over and compiled PRINT USING statements at 6 configurations; '
+          '16 sampled extracted results are re-evaluated by vm_compute inside Coq on every run.'),
+    design_ref='DESIGN.md 5/C19',
+    note=('Trusted: Coq kernel; ExtrOcamlBasic extraction (sample re-checked by vm_compute every run); OCaml driver and Python harness. Modelled, not verified: qvm/using.py and the USING branch of _exec_print. Python format/repr are re-implemented in Base/Dec.v and compared every run. Field boundaries come from the scanner.'),
+    technique='Rocq proof over a hand-written Gallina model + differential correspondence against the implementation'),
 }
 
 ALL = ['C%02d' % i for i in range(1, 21)]
